@@ -252,3 +252,173 @@ Proof.
   destruct (Shift.overflowing_shl bits a rhs) as [v1 [|]]; destruct (Shift.overflowing_shr bits a rhs) as [v2 [|]];
     cbn [obind fst]; repeat split; reflexivity.
 Qed.
+
+(* ====================== bit operators, arithmetic_shr, rotations ====================== *)
+From RV.Model Require Bits.
+From RV.Proofs Require PfGenLimbs PfGenBits PfModelsAgree.
+
+Lemma map_last_length f (l : list Z) : length (map_last f l) = length l.
+Proof.
+  induction l as [|x l IH]; [reflexivity|]. destruct l as [|y l]; [reflexivity|].
+  change (map_last f (x :: y :: l)) with (x :: map_last f (y :: l)). cbn [length] in *. lia.
+Qed.
+Lemma masked_length bits l : length (masked bits l) = length l.
+Proof. unfold masked. destruct (should_mask bits); [apply map_last_length | reflexivity]. Qed.
+Lemma shl_loop_length sb xs : forall c, length (fst (Shift.shl_loop xs sb c)) = length xs.
+Proof.
+  induction xs as [|x xs IH]; intros c; [reflexivity|]. cbn [Shift.shl_loop].
+  specialize (IH (shr64 (shr64 x (64 - sb - 1)) 1)).
+  destruct (Shift.shl_loop xs sb (shr64 (shr64 x (64 - sb - 1)) 1)). cbn [fst length] in *. lia.
+Qed.
+Lemma shr_loop_length sb xs : forall c, length (fst (Shift.shr_loop xs sb c)) = length xs.
+Proof.
+  induction xs as [|x xs IH]; intros c; [reflexivity|]. cbn [Shift.shr_loop].
+  specialize (IH (shl64 (shl64 x (64 - sb - 1)) 1)).
+  destruct (Shift.shr_loop xs sb (shl64 (shl64 x (64 - sb - 1)) 1)). cbn [fst length] in *. lia.
+Qed.
+
+Lemma wrapping_shl_length bits a rhs : 0 <= bits -> length a = nlimbsN bits -> 0 <= rhs ->
+  length (Shift.wrapping_shl bits a rhs) = nlimbsN bits.
+Proof.
+  intros Hb Hl Hr. unfold Shift.wrapping_shl, Shift.overflowing_shl. cbv zeta.
+  pose proof (Z.div_pos rhs 64 Hr ltac:(lia)) as Hq. pose proof (nlimbs_nonneg bits Hb) as HL.
+  destruct (Z.leb_spec (nlimbs bits) (rhs / 64)); [cbn [fst]; apply PfGenAdd.uZERO_length|].
+  pose proof (shl_loop_length (rhs mod 64) (firstn (Z.to_nat (nlimbs bits - rhs / 64)) a) 0) as Hlen.
+  destruct (Shift.shl_loop (firstn (Z.to_nat (nlimbs bits - rhs / 64)) a) (rhs mod 64) 0) as [hi c]. cbn [fst] in *.
+  rewrite masked_length, app_length, repeat_length, Hlen, firstn_length, Hl. unfold nlimbsN. lia.
+Qed.
+Lemma wrapping_shr_length bits a rhs : 0 <= bits -> length a = nlimbsN bits -> 0 <= rhs ->
+  length (Shift.wrapping_shr bits a rhs) = nlimbsN bits.
+Proof.
+  intros Hb Hl Hr. unfold Shift.wrapping_shr, Shift.overflowing_shr. cbv zeta.
+  pose proof (Z.div_pos rhs 64 Hr ltac:(lia)) as Hq. pose proof (nlimbs_nonneg bits Hb) as HL.
+  destruct (Z.leb_spec (nlimbs bits) (rhs / 64)); [cbn [fst]; apply PfGenAdd.uZERO_length|].
+  pose proof (shr_loop_length (rhs mod 64) (rev (skipn (Z.to_nat (rhs / 64)) a)) 0) as Hlen.
+  destruct (Shift.shr_loop (rev (skipn (Z.to_nat (rhs / 64)) a)) (rhs mod 64) 0) as [lo c]. cbn [fst] in *.
+  rewrite app_length, rev_length, repeat_length, Hlen, rev_length, skipn_length, Hl. unfold nlimbsN. lia.
+Qed.
+
+(* `for i in 0..LIMBS { u64::op_assign(&mut self.limbs[i], rhs.limbs[i]) }` for op in | & ^ *)
+Section BitOp.
+  Variable f : Z -> Z -> Z.
+  Variable g_assign : Z -> Z -> list Z -> list Z -> outcome (list Z).
+  Hypothesis g_assign_def : forall BITS LIMBS self rhs,
+    g_assign BITS LIMBS self rhs =
+    (do t_4 <- for_range 0 LIMBS self (fun i t_5 => let 'self := t_5 in
+        do t_2 <- idx self i ; do t_3 <- idx rhs i ; let t_1 := (f t_2 t_3) in
+        do _ <- idx self i ; let self := upd self i t_1 in Val self) ;
+     let 'self := t_4 in Val self).
+
+  Definition bop_step (b : list Z) (k : nat) (x : Z) (u : unit) : Z * unit := (f x (nth k b 0), tt).
+
+  Lemma op_assign_iloop b l : forall k, (k + length l <= length b)%nat ->
+    Bits.op_assign f l (skipn k b) = Val (fst (PfGenLimbs.iloop unit (bop_step b) k l tt)).
+  Proof.
+    induction l as [|x l IH]; intros k H; [reflexivity|]. cbn [length] in H.
+    rewrite PfGenLimbs.skipn_nth_cons by lia. cbn [Bits.op_assign PfGenLimbs.iloop].
+    rewrite (IH (S k)) by lia. cbn [obind]. unfold bop_step at 2.
+    destruct (PfGenLimbs.iloop unit (bop_step b) (S k) l tt) as [rs []]. reflexivity.
+  Qed.
+
+  Lemma g_assign_eq bits a b : 0 <= bits -> length a = nlimbsN bits -> length b = nlimbsN bits ->
+    g_assign bits (nlimbs bits) a b = Bits.op_assign f a b.
+  Proof.
+    intros Hb Hla Hlb. rewrite g_assign_def. unfold for_range.
+    replace (Z.to_nat (nlimbs bits - 0)) with (length a) by (rewrite Hla; unfold nlimbsN; lia).
+    pose proof (PfGenLimbs.idx_loop (list Z) unit (fun l _ => l) (bop_step b) (fun _ => True) (fun _ => True)
+                  (length b)
+                  (fun i t_5 => let 'self := t_5 in
+                     do t_2 <- idx self i ; do t_3 <- idx b i ; let t_1 := (f t_2 t_3) in
+                     do _ <- idx self i ; let self := upd self i t_1 in Val self)) as L.
+    destruct (L ltac:(
+      intros pre x post s Hk _ _; cbv beta iota zeta; rewrite idx_app_mid; cbn [obind];
+      rewrite PfGenLimbs.idx_nth by exact Hk; cbn [obind]; rewrite ?idx_app_mid; cbn [obind];
+      rewrite upd_app_mid; unfold bop_step; cbn [fst snd]; split; [reflexivity | exact I])
+      a [] tt ltac:(cbn [length]; lia) I ltac:(apply Forall_forall; intros; exact I)) as [E _].
+    cbn [length app Z.of_nat] in E. rewrite E. cbn [obind].
+    pose proof (op_assign_iloop b a 0%nat ltac:(cbn; lia)) as E2. cbn [skipn] in E2. rewrite E2. reflexivity.
+  Qed.
+
+  Lemma op_assign_length a : forall b r, Bits.op_assign f a b = Val r -> length r = length a.
+  Proof.
+    induction a as [|x a IH]; intros b r E; [cbn in E; injection E as <-; reflexivity|].
+    destruct b as [|y b]; [discriminate|]. cbn [Bits.op_assign] in E.
+    destruct (Bits.op_assign f a b) as [t| | | |] eqn:Et; cbn [obind] in E; try discriminate.
+    injection E as <-. cbn [length]. f_equal. apply (IH b t Et).
+  Qed.
+End BitOp.
+
+Lemma op_assign_lor_bitor a : forall b, length a = length b -> Bits.op_assign Z.lor a b = Val (Shift.bitor a b).
+Proof.
+  induction a as [|x a IH]; intros [|y b] H; try discriminate; [reflexivity|].
+  cbn [Bits.op_assign Shift.bitor]. rewrite IH by (cbn in H; lia). reflexivity.
+Qed.
+
+Theorem g_bit_ops_eq bits a b : 0 <= bits -> length a = nlimbsN bits -> length b = nlimbsN bits ->
+  g_bitor_assign bits (nlimbs bits) a b = Bits.op_assign Z.lor a b /\
+  g_bitand_assign bits (nlimbs bits) a b = Bits.op_assign Z.land a b /\
+  g_bitxor_assign bits (nlimbs bits) a b = Bits.op_assign Z.lxor a b /\
+  g_bitor bits (nlimbs bits) a b = Bits.op_assign Z.lor a b /\
+  g_bitand bits (nlimbs bits) a b = Bits.op_assign Z.land a b /\
+  g_bitxor bits (nlimbs bits) a b = Bits.op_assign Z.lxor a b.
+Proof.
+  intros Hb Hla Hlb.
+  pose proof (g_assign_eq Z.lor g_bitor_assign ltac:(reflexivity) bits a b Hb Hla Hlb) as E1.
+  pose proof (g_assign_eq Z.land g_bitand_assign ltac:(reflexivity) bits a b Hb Hla Hlb) as E2.
+  pose proof (g_assign_eq Z.lxor g_bitxor_assign ltac:(reflexivity) bits a b Hb Hla Hlb) as E3.
+  unfold g_bitor, g_bitand, g_bitxor. rewrite E1, E2, E3.
+  repeat split; try reflexivity.
+  - destruct (Bits.op_assign Z.lor a b); reflexivity.
+  - destruct (Bits.op_assign Z.land a b); reflexivity.
+  - destruct (Bits.op_assign Z.lxor a b); reflexivity.
+Qed.
+
+Lemma uMAX_length bits : length (uMAX bits) = nlimbsN bits.
+Proof. unfold uMAX. rewrite masked_length, repeat_length. reflexivity. Qed.
+
+Theorem g_arith_rot_eq bits a rhs :
+  0 < bits -> bits < B -> nlimbs bits < B -> length a = nlimbsN bits -> 0 <= rhs ->
+  g_arithmetic_shr bits (nlimbs bits) a rhs = Val (Shift.arithmetic_shr bits a rhs) /\
+  g_rotate_left bits (nlimbs bits) a rhs = Val (Shift.rotate_left bits a rhs) /\
+  g_rotate_right bits (nlimbs bits) a rhs = Val (Shift.rotate_right bits a rhs).
+Proof.
+  intros Hb HbB HB Hla Hr.
+  assert (Hb0 : 0 <= bits) by lia.
+  assert (Hrot : forall r, 0 <= r -> g_rotate_left bits (nlimbs bits) a r = Val (Shift.rotate_left bits a r)).
+  { intros r Hr0. unfold g_rotate_left, Shift.rotate_left.
+    destruct (Z.eqb_spec bits 0); [lia|].
+    unfold chkdiv. destruct (Z.eqb_spec bits 0); [lia|]. cbn [obind]. cbv zeta.
+    pose proof (Z.mod_pos_bound r bits Hb) as Hm.
+    destruct (g_shift_wrappers_eq bits a (r mod bits) Hb0 HB Hla ltac:(lia)) as (_ & _ & Ewl & _ & _).
+    rewrite Ewl. cbn [obind]. rewrite chk64_ok by lia. cbn [obind].
+    destruct (g_shift_wrappers_eq bits a (bits - r mod bits) Hb0 HB Hla ltac:(lia)) as (_ & _ & _ & _ & Ewr).
+    rewrite Ewr. cbn [obind].
+    destruct (g_bit_ops_eq bits (Shift.wrapping_shl bits a (r mod bits)) (Shift.wrapping_shr bits a (bits - r mod bits)) Hb0
+                ltac:(apply wrapping_shl_length; auto; lia) ltac:(apply wrapping_shr_length; auto; lia))
+      as (_ & _ & _ & Eor & _ & _).
+    rewrite Eor. rewrite op_assign_lor_bitor
+      by (rewrite wrapping_shl_length, wrapping_shr_length by (auto; lia); reflexivity).
+    reflexivity. }
+  split; [|split].
+  - unfold g_arithmetic_shr, Shift.arithmetic_shr. destruct (Z.eqb_spec bits 0); [lia|].
+    rewrite chk64_ok by lia. cbn [obind].
+    rewrite PfGenBits.g_bit_eq by lia.
+    rewrite (PfModelsAgree.agree_shift_bit bits a (bits - 1) Hb0 Hla ltac:(lia)). cbn [obind].
+    destruct (g_shift_wrappers_eq bits a rhs Hb0 HB Hla Hr) as (_ & _ & _ & _ & Ewr).
+    rewrite Ewr. cbn [obind]. unfold Shift.shr_prim, Shift.shl_prim.
+    destruct (Shift.bit bits a (bits - 1)); cbn [obind]; [|reflexivity].
+    destruct (g_shift_wrappers_eq bits (uMAX bits) (Z.max 0 (bits - rhs)) Hb0 HB (uMAX_length bits) ltac:(lia))
+      as (_ & _ & Ewl & _ & _).
+    rewrite Ewl. cbn [obind].
+    destruct (g_bit_ops_eq bits (Shift.wrapping_shr bits a rhs) (Shift.wrapping_shl bits (uMAX bits) (Z.max 0 (bits - rhs))) Hb0
+                ltac:(apply wrapping_shr_length; auto) ltac:(apply wrapping_shl_length; auto using uMAX_length; lia))
+      as (_ & _ & _ & Eor & _ & _).
+    rewrite Eor. rewrite op_assign_lor_bitor
+      by (rewrite wrapping_shl_length, wrapping_shr_length by (auto using uMAX_length; lia); reflexivity).
+    reflexivity.
+  - apply Hrot. exact Hr.
+  - unfold g_rotate_right, Shift.rotate_right. destruct (Z.eqb_spec bits 0); [lia|].
+    unfold chkdiv. destruct (Z.eqb_spec bits 0); [lia|]. cbn [obind]. cbv zeta.
+    pose proof (Z.mod_pos_bound rhs bits Hb) as Hm.
+    rewrite chk64_ok by lia. cbn [obind]. rewrite Hrot by lia. reflexivity.
+Qed.
